@@ -139,6 +139,7 @@ int main(int argc, char** argv) {
     int iters = argc > 1 ? atoi(argv[1]) : 50;
     long runs = 0, bad = 0;
     for (int mask = 0; mask < 32; ++mask) {
+        printf("FREE-PROGRESS mask %d\n", mask); fflush(stdout);
         auto refT = runCase(mask, 1, -2);
         for (int T : {2, 3, 4, 8})
             for (int it = 0; it < iters; ++it) {
@@ -263,10 +264,10 @@ int main(int argc, char** argv) {
         int rc = p ? pclose(p) : -1;
         if (rc != 0) run.harnessError("building the TSan race-pass harness failed: " + out.substr(0, 2000));
         else {
-            std::string cmd = "TSAN_OPTIONS='halt_on_error=0 report_signal_unsafe=0 history_size=4' timeout -s KILL 900 " + run.buildDir + "/bin/C17_tsan " + std::to_string(th ? 40 : 6) + " 2>&1";
-            p = popen(cmd.c_str(), "r"); std::string rep;
-            while (p && fgets(buf, sizeof buf, p)) rep += buf;
-            int prc = p ? pclose(p) : -1;
+            // no wall-clock limit: the pass prints a progress line per force mix and is killed only after 900 s of silence (see verif::runWatched)
+            std::string cmd = "TSAN_OPTIONS='halt_on_error=0 report_signal_unsafe=0 history_size=4' " + run.buildDir + "/bin/C17_tsan " + std::to_string(th ? 40 : 6) + " 2>&1";
+            std::string rep; bool hung = false;
+            int prc = verif::runWatched(cmd, 900, rep, hung);
             int reports = 0; long freeRuns = 0, freeBad = 0; std::string first;
             std::istringstream is(rep); std::string l;
             while (std::getline(is, l)) {
@@ -277,7 +278,7 @@ int main(int argc, char** argv) {
             }
             run.extraCoverage["race_pass"] = "{\"runs\": " + std::to_string(freeRuns) + ", \"tsan_reports\": " + std::to_string(reports) + ", \"oracle_failures\": " + std::to_string(freeBad) + "}";
             if (freeRuns == 0 && prc != 0 && rep.find("FREE-ORACLE-FAIL") == std::string::npos)
-                run.violation("free-run-hang-or-crash", "the free-running pass did not finish within 900 s or crashed (exit status " + std::to_string(prc) + ")", "section=race\ncommand=" + cmd + "\n" + rep.substr(0, 2000));
+                run.violation("free-run-hang-or-crash", std::string(hung ? "the free-running pass printed no progress for 900 s (hang: deadlock or lost wake-up on the real, unscheduled code)" : "the free-running pass crashed") + " (wait status " + std::to_string(prc) + ")", "section=race\ncommand=" + cmd + "\n" + rep.substr(0, 2000));
             else if (freeRuns == 0) run.harnessError("free-running pass produced no runs: " + rep.substr(0, 1500));
             if (reports > 0) run.violation("race/GeneralForceSubsystem", "ThreadSanitizer reported " + std::to_string(reports) + " data race(s) in the free-running pass", "section=race\ncommand=" + cmd + "\n" + rep.substr(0, 6000));
             if (freeBad > 0) run.violation("free-run-totals-differ", "free-running pass: totals differ from the serial reference in " + std::to_string(freeBad) + " of " + std::to_string(freeRuns) + " runs; first: " + first, "section=race\ncommand=" + cmd + "\n" + rep.substr(0, 3000));
